@@ -325,6 +325,14 @@ def run(ck):
             descs[kind] = d
             for name in ('given-parity-used', 'fresh-variable-otherwise', 'counter-incremented-once-when-fresh', 'same-target', 'target-is-the-X-effect'):
                 ck.ob('R-SIB-measure', '%s/%s' % (kind, name), bool(d.get(name)), ck.site('gate::Gate::add_to_graph'), '%s arm: %s does not hold' % (kind, name))
+        # the measurement arms remove the measured wire from the qubit -> output-slot map exactly like post-selection does (shared rule with C02-D2):
+        # a map keyed by anything but the removed slot sends every later gate (and the recorded parities) to the wrong wire once a SWAP made the map non-monotone
+        from .C02 import shift_block
+        a = shift_block(t['PostSelect']['body'])
+        for kind in ('Measure',):
+            b = shift_block(t[kind]['body'])
+            ck.ob('R-SIB-measure', '%s/index-shift' % kind, a == b and len(a) >= 3 and any('> SLOT' in x for x in a), ck.site('gate::Gate::add_to_graph'),
+                  'the %s arm must remove the output slot, forget the qubit and shift every map entry above the removed SLOT down by one, exactly as PostSelect does: %s vs %s' % (kind, b, a))
     # positive controls
     fx = fixture()
     res, _ex = co_transfer(fx, 'simplify::bad_transfer')
